@@ -1,6 +1,6 @@
 CFG = {
     "extract": "save_order",
-    "lean_targets": ["Norad.Props.C08", "Norad.Props.C08C13"],
+    "lean_targets": ["Norad.Props.C08", "Norad.Props.C08C13", "Norad.Props.C08Fault"],
     "audit": "Norad/Audit/C08.lean",
     "rule": ("Font::save through the public API in a sandbox directory: fonts invalid by each of the refusal kinds (format version 1/2, public.objectLibs in the font lib, "
              "a glyph in two kern1 groups, an impossible openTypeHeadCreated, a guideline angle of 400, store entries that are non-PNG / deleted / replaced by a directory / "
@@ -16,7 +16,7 @@ CFG = {
         "file contents other than store files are uninterpreted (`render`); the model's post-state is compared on paths, kinds and store-file hashes",
     ],
     "assumptions": [
-        "crash points inside a save and I/O errors other than exists / not-found / not-a-directory / is-a-directory are outside the statement and the model",
+        "crash points inside a save and I/O errors other than exists / not-found / not-a-directory / is-a-directory are outside the statement and the model, except the one injected fault of Model/SaveFault.lean (theorems only; the harness injects no faults)",
         "the harness is built without the rayon feature: glyph files are written in contents order and a failing glyph stops the layer",
     ],
 }
@@ -31,7 +31,9 @@ MANIFEST = {
              " Second phase: inplace_save_keeps_store_files (load from t, save onto t: every data/images file keeps its bytes although every cell was notLoaded; well-formed FS) and its counterexample on the variant without step 5."
              " Third phase: generators extended by 12 font-info boundary variants, 5 groups shapes, save_with_options, other spellings of the target, fonts from partial loads."
              " Source-level tie: tools/extract_save_order.py regenerates Generated/SaveOrder.lean from src/font.rs on every run; source_validators_precede_wipe (the steps in front of remove_dir_all in fn save_impl are exactly the model's five validators, then create_dir, then the writes) and source_save_order_matches_plan (the write order of the source equals the order of `plan` on a probe font), by decide."
-             " Last phase: source_plan_refusal_has_no_effect and source_refuses_whenever_model_does - the step list extracted from fn save_impl, run against the model (Source.execSteps), refuses with the untouched file system whenever one of its pre-wipe steps refuses, for every interpretation of unknown steps, and refuses whenever the model's validatePhase does."),
+             " Last phase: source_plan_refusal_has_no_effect and source_refuses_whenever_model_does - the step list extracted from fn save_impl, run against the model (Source.execSteps), refuses with the untouched file system whenever one of its pre-wipe steps refuses, for every interpretation of unknown steps, and refuses whenever the model's validatePhase does."
+             " Session 2026-09-29: the saveTable section of the extractor translates every top-level statement of fn save_impl into rows (guard atoms, step); source_save_table_parses (every atom and step is one the model has a meaning for, in the model's order), source_save_table_eq_model (running the regenerated rows against the abstract file system IS saveImpl, every font / file system / target), source_table_refusals_precede_wipe."
+             " One fault kind (Model/SaveFault.lean: the effect at position k of the plan fails with an I/O error): failed_save_stays_inside_target (safePaths: every path not at or below the target keeps its node, any font / file system / position / error), failed_save_leaves_partial_target (kernel-evaluated witness: the old content is gone and the target is partially written), fault_beyond_plan_is_save."),
     "design_ref": "5 / C08, 4 (abstract file system)",
     "note": "trusted: Lean kernel + 3 standard axioms; harness/driver glue; std::fs vs abstract FS; validators and renderers abstract",
     "technique": "Lean 4 proof about an effect-ordered model of save + differential sandbox snapshots against the real crate",
